@@ -419,6 +419,7 @@ impl Prop for C05 {
          the target (wrapped/unwrapped known words and random strings) reached through an insert/backspace edit script with detours; a second context over another user directory with other options poked between events in half of the cases. \
          In a quarter of the cases the final event is a backspace that deletes an extra character (a punctuation key with a selection byte, or a letter) in the warm context and an extra k in the reference. Reference: a context whose method object is re-created (update_engine to another layout and back) before each comparison types the target directly with the same final selection byte; \
          every mismatch is re-checked from scratch (all earlier cases of that warm context are replayed on a new context, then the case is judged against a truly new context) before it is reported, and one case in 10 (quick) / 6 (thorough) uses truly new contexts directly. \
+         Across processes: every worker process first asks the same 8 questions (word -> rendering) of a context over the bundled data, after having created a context over a second, small data directory first, afterwards, or not at all (by shard number); the orchestrator compares the answers of all shards. \
          distinct_nontrivial = distinct (target, options, selection byte, edit script) tuples compared."
             .into()
     }
@@ -436,7 +437,7 @@ impl Prop for C05 {
         let n = tier.pick(8_000, 150_000);
         vec![
             ("comparisons", n), ("comparisons_with_warm_memo_for_target", n / 4), ("comparisons_with_4_or_more_candidates", n / 5), ("comparisons_after_detours", n / 5),
-            ("comparisons_with_second_context_interleaved", n / 4), ("comparisons_with_learned_preselection", n / 40), ("comparisons_whose_final_event_is_a_backspace", n / 8), ("comparisons_against_truly_new_context", n / 20),
+            ("comparisons_with_second_context_interleaved", n / 4), ("comparisons_with_learned_preselection", n / 40), ("comparisons_whose_final_event_is_a_backspace", n / 8), ("comparisons_against_truly_new_context", n / 20), ("cross_process_answers_agreeing", 100),
         ]
     }
     fn run_shard(&self, env: &Env, out: &mut Out) {
@@ -448,6 +449,40 @@ impl Prop for C05 {
         let root_co = env.root("c05-confirm-other");
         install(&root, STORE, USER_AC);
         install(&root_other, OTHER_STORE, OTHER_AC);
+        // ---- the same questions in worker processes with different populations of contexts: a context over a second
+        // data directory is created first (shards 0, 3, ...), later (1, 4, ...) or never (2, 5, ...); the orchestrator
+        // compares the answers of all shards (these are the first contexts of the process)
+        {
+            let proot = env.root("c05-population");
+            install(&proot, STORE, USER_AC);
+            let full = CfgSpec::new(Lay::Phonetic, O_PSUGG);
+            let small = CfgSpec { lay: Lay::Phonetic, opts: O_PSUGG, small: true };
+            let order = env.shard % 3;
+            let wh = ["created a context over another data directory first", "created the probed context first and one over another data directory afterwards", "created no context over another data directory"][order];
+            let early = if order == 0 { Sess::new(small, &proot).ok() } else { None };
+            if let Some(s) = &early {
+                let _ = s.type_text("kotha");
+                let _ = s.finish();
+            }
+            if let Ok(f) = Sess::new(full, &proot) {
+                let late = if order == 1 { Sess::new(small, &proot).ok() } else { None };
+                let mut nq = 0u64;
+                for w in ["ami", "kotha", "k", "tumi", "kaj", "asgulo", "academy", "onnoder"] {
+                    let mut ask = |s: &Sess, db: &str, out: &mut Out| {
+                        if let Ok(Some(x)) = s.type_text_protocol(w) {
+                            out.xobs(format!("c05:other-contexts-in-the-process|data={db}|{}|{w}", s.spec.short()), Rs::of(&x).to_json().to_string(), wh);
+                            nq += 1;
+                        }
+                        let _ = s.finish();
+                    };
+                    ask(&f, "bundled", out);
+                    if let Some(s) = early.as_ref().or(late.as_ref()) {
+                        ask(s, "small", out);
+                    }
+                }
+                out.count("cross_process_questions_asked", nq);
+            }
+        }
         let n = env.tier.pick(700, 3000);
         let fresh_every = env.tier.pick(10, 6);
         let Ok(other) = Sess::new(CfgSpec::new(Lay::Phonetic, O_PSUGG | O_ENG), &root_other) else { return };
